@@ -1,4 +1,5 @@
 //! One module per property. Each exposes `pub fn run(run: &mut Run) -> &'static str` (returns its rule text).
+pub mod collide;
 pub mod common;
 pub mod hist;
 pub mod searchlib;
